@@ -47,6 +47,9 @@ class Program(object):
         # Commands lookup, in the form of {result_name: command, ...}
         self.commands = {}
 
+        # The library names are gone through more than once
+        libraries = tuple(libraries)
+
         # Load command libraries
         for lib in libraries:
             self.load_commands(lib)
